@@ -5,22 +5,24 @@ import vflib
 META = dict(
     engine="E4",
     level="model_checking",
-    text="specs/Linearize defines topological orders, chunking, feerate diagrams, their exact comparison, the optimum (a diagram at least as "
-         "good as that of every topological order, by brute force) and a model of PostLinearize. TLC enumerates every cluster of a bounded "
-         "domain (all parent-labelled DAGs on <= 3 transactions, every connected poset shape on 4; fees incl. 0 and negative, sizes; 64 DAGs "
-         "on 4 and shapes on 5 in thorough) and emits one row per cluster with all its topological orders. The harness builds the real DepGraph "
-         "(three placements incl. holes, plain and scaled to fees ~2^62 / sizes ~2^31), calls Linearize with ~9 cost budgets from 0 to ample, "
-         "with no input, every topological order as input and inputs not claimed topological, then PostLinearize, ChunkLinearization[Info] and "
-         "CompareChunks, and only logs the results. TraceLinearize (TLC) decides on every line: the model clauses (an optimum exists, chunk "
-         "feerates never increase, minimal optimal chunks connected, the PostLinearize model is topological/never worse/connected on every "
-         "input) and the code clauses (output topological; never worse than a topological input; reported optimal => at least as good as "
-         "every topological order; post-processing topological, never worse, every chunk connected; chunking and diagram comparison equal "
-         "the specification's). Seeded random clusters of 5-8 (brute force) and 9-64 transactions (all clauses except optimality) go through "
-         "the same trace specification.",
-    note="Exhaustive only within the bounded domain; 9-64-transaction clusters are sampled and optimality is not decided for them. "
-         "Extreme values are reached by scaling a small-integer cluster (the relations are scale invariant, checked on the model).",
-    technique="TLA+ brute-force oracle (all topological orders) + TLC-enumerated cluster table driven through the real classes + trace "
-              "validation of the logged results by TLC",
+    text="specs/Linearize defines, by brute force, topological orders, chunking, feerate diagrams, their exact pointwise comparison, the optimum "
+         "(a diagram at least as good as that of every topological order) and a model of PostLinearize. TLC enumerates every cluster of a bounded "
+         "domain (quick: all parent-labelled DAGs on <= 3 transactions over 6 (fee,size) values incl. zero and negative fees, and the 10 connected "
+         "poset shapes on 4 transactions over 5 values = 8,056 clusters; thorough adds all 64 DAGs on 4 over 6 values and the 44 connected shapes "
+         "on 5 = 138k clusters) and emits one row per cluster with all its topological orders. The harness builds the real DepGraph (placements "
+         "in label order, reversed, with holes; plain and scaled to fees ~2^62 / sizes ~2^31), calls Linearize with ~9 cost budgets from 0 to ample "
+         "x 2 rng seeds, with no input, every topological order as input and every permutation as input not claimed topological, post-processes "
+         "every result with PostLinearize as TxGraph does, and calls ChunkLinearization[Info] and CompareChunks; it judges nothing and only logs "
+         "the results. TraceLinearize (TLC) decides for every cluster the model clauses (an optimum exists, chunk feerates never increase, minimal "
+         "optimal chunks connected, the PostLinearize model is topological / never worse / connected-chunked on every topological input) and the "
+         "code clauses (output topological; never worse than a topological input; reported optimal => at least as good as every topological order; "
+         "post-processing topological, never worse, every chunk connected; chunking and diagram comparison equal the specification's). Seeded "
+         "random clusters of 5-8 transactions (brute-force optimum) and 9-64 transactions (all clauses except optimality) go through the same "
+         "specification.",
+    note="Exhaustive only within the bounded domain; 5-64-transaction clusters are seeded samples and optimality is decided only up to 8 "
+         "transactions. Extreme values are reached by scaling a small-integer cluster (the relations are scale invariant, checked on the model).",
+    technique="TLA+ brute-force oracle (all topological orders) + TLC-enumerated cluster table driven through the real classes + TLC judging "
+              "the logged results (trace validation)",
 )
 
 VAL_KEYS = ("linearize_calls", "postlinearize_calls", "optimal_results", "not_optimal_results", "distinct_linearize_results",
@@ -39,54 +41,73 @@ def parse_bad(log_path):
     return (int(ls[-1]) if ls else None), [(a, b, int(c)) for a, b, c in m]
 
 
-def validate(ctx, binary, lines, origins, name, chunk=40000):
-    """TLC judges every logged cluster. origins[i] = (mode, input) that reproduces lines[i]."""
+def judge(ctx, lines, name):
+    """One single-worker TLC process judges these log lines. Returns (line number of a violated state or None, bad)."""
+    path = os.path.join(ctx.work, name + ".ndjson")
+    with open(path, "w") as f:
+        f.writelines(lines)
+    r = ctx.tlc("Linearize", "TraceLinearize", "Trace.cfg", name=name, env={"TRACE": path}, expect_violation=True, workers=1,
+                xmx="4g", timeout=3000)
+    if r.error:
+        raise vflib.InfraError(r.error + " (log %s)" % r.log_path)
+    if not r.violated:
+        if r.distinct != 2 * len(lines):
+            raise vflib.InfraError("TLC judged %d of %d logged clusters (log %s)" % (r.distinct // 2, len(lines), r.log_path))
+        os.remove(path)
+        return None, []
+    if r.violated != "NoBad":
+        raise vflib.InfraError("unexpected violation %s (log %s)" % (r.violated, r.log_path))
+    l, bad = parse_bad(r.log_path)
+    if l is None or not bad:
+        raise vflib.InfraError("cannot parse the violated state (log %s)" % r.log_path)
+    return l, bad
+
+
+def validate(ctx, binary, lines, origins, name, per_process=6000):
+    """TLC judges every logged cluster; origins[i] = (mode, input) that reproduces lines[i]. The log is split over
+    single-worker TLC processes run side by side (a multi-worker TLC parses the whole log once per worker)."""
+    import concurrent.futures
     if not lines:
         raise vflib.InfraError("empty log")
-    nchunks = (len(lines) + chunk - 1) // chunk
-    for ci in range(nchunks):
-        index = list(range(ci * chunk, min(len(lines), (ci + 1) * chunk)))
-        for attempt in range(2):
-            cur = os.path.join(ctx.work, "%s.%d.%d.ndjson" % (name, ci, attempt))
-            with open(cur, "w") as f:
-                f.writelines(lines[j] for j in index)
-            r = ctx.tlc("Linearize", "TraceLinearize", "Trace.cfg", name="%s-%d-%d" % (name, ci, attempt),
-                        env={"TRACE": cur}, expect_violation=True, xmx="12g", timeout=3000)
-            if r.error:
-                raise vflib.InfraError(r.error + " (log %s)" % r.log_path)
-            if not r.violated:
-                if r.distinct != 2 * len(index):
-                    raise vflib.InfraError("TLC judged %d of %d logged clusters (log %s)" % (r.distinct // 2, len(index), r.log_path))
-                os.remove(cur)
-                break
-            if r.violated != "NoBad":
-                raise vflib.InfraError("unexpected violation %s (log %s)" % (r.violated, r.log_path))
-            l, bad = parse_bad(r.log_path)
-            if l is None or not bad:
-                raise vflib.InfraError("cannot parse the violated state (log %s)" % r.log_path)
+    jobs = max(1, min(vflib.free_cpus(), 16))
+    nparts = max(jobs if len(lines) >= 40 * jobs else 1, (len(lines) + per_process - 1) // per_process)
+    parts = [list(range(k, len(lines), nparts)) for k in range(nparts)]
+    reported = 0
+
+    def work(k):
+        return k, judge(ctx, [lines[j] for j in parts[k]], "%s-%d" % (name, k))
+    with concurrent.futures.ThreadPoolExecutor(max_workers=jobs) as ex:
+        results = sorted(ex.map(work, range(nparts)))
+    for k, (l, bad) in results:
+        index = parts[k]
+        attempt = 0
+        while l is not None and reported < 4:
             i = index[l - 1]
             line = json.loads(lines[i])
             clauses = sorted(set(b[0] for b in bad))
             model = [c for c in clauses if c.startswith("model:")]
             code = [c for c in clauses if not c.startswith("model:") and not c.startswith("harness:")]
-            cluster = {k: line[k] for k in ("n", "par", "fee", "size")}
+            cluster = {f: line[f] for f in ("n", "par", "fee", "size")}
             if model:
                 raise vflib.InfraError("specification defect: %s on cluster %s" % (model, json.dumps(cluster)))
             if not code:
                 raise vflib.InfraError("harness contract broken: %s on cluster %s" % (clauses, json.dumps(cluster)))
-            records = [dict(clause=a, record=explain(line, f, k)) for a, f, k in bad[:6]]
+            records = [dict(clause=a, record=explain(line, f, n)) for a, f, n in bad[:6]]
             mode, inp = origins[i]
-            what = "cluster %s: %s; e.g. %s" % (json.dumps(cluster), ", ".join(code), json.dumps(records[0]["record"]))
+            what = "%s on cluster %s; e.g. %s" % (", ".join(code), json.dumps(cluster)[:260], json.dumps(records[0]["record"])[:260])
 
             def confirm(mode=mode, inp=inp, code=code):
                 again = rejudge(ctx, binary, mode, inp)
                 return any(c in again for c in code)
             ctx.violation("clause:" + code[0], what, dict(adapter="linearize", mode=mode, input=inp, cluster=cluster, clauses=clauses,
                                                            records=records), confirm=confirm)
-            # look for violations of other clauses on the remaining clusters (bounded)
+            reported += 1
+            # one more look at the rest of this part (other clauses may be violated elsewhere)
             index = index[:l - 1] + index[l:]
-            if not index:
+            attempt += 1
+            if attempt > 1 or not index:
                 break
+            l, bad = judge(ctx, [lines[j] for j in index], "%s-%d-again" % (name, k))
     ctx.traces += len(lines)
 
 
@@ -167,11 +188,13 @@ def run(ctx):
         all_lines += lines; all_origins += origins
     # seeded random clusters: 5-8 transactions with the brute-force optimum, 9-64 without
     if quick:
-        jobs = [dict(seed=ctx.seed * 1000 + k, count=8, nmin=5, nmax=7) for k in range(8)] + \
+        jobs = [dict(seed=ctx.seed * 1000 + k, count=8, nmin=5, nmax=5) for k in range(4)] + \
+               [dict(seed=ctx.seed * 1000 + 50 + k, count=15, nmin=6, nmax=7) for k in range(16)] + \
                [dict(seed=ctx.seed * 1000 + 100 + k, count=1, nmin=8, nmax=8) for k in range(4)] + \
                [dict(seed=ctx.seed * 1000 + 200 + k, count=4, nmin=9, nmax=64) for k in range(8)]
     else:
-        jobs = [dict(seed=ctx.seed * 1000 + k, count=25, nmin=5, nmax=7) for k in range(64)] + \
+        jobs = [dict(seed=ctx.seed * 1000 + k, count=25, nmin=5, nmax=5) for k in range(16)] + \
+               [dict(seed=ctx.seed * 1000 + 50 + k, count=25, nmin=6, nmax=7) for k in range(96)] + \
                [dict(seed=ctx.seed * 1000 + 100 + k, count=5, nmin=8, nmax=8) for k in range(32)] + \
                [dict(seed=ctx.seed * 1000 + 200 + k, count=15, nmin=9, nmax=64) for k in range(64)]
     lines, origins, res = drive_harness(ctx, binary, "drive", jobs, "random", lambda s, k, nproc: jobs[s::nproc])
